@@ -12,6 +12,10 @@
 #include <amgcl/backend/builtin.hpp>
 #include <amgcl/detail/spgemm.hpp>
 #include <amgcl/detail/sort_row.hpp>
+#include <amgcl/coarsening/plain_aggregates.hpp>
+#include <amgcl/coarsening/tentative_prolongation.hpp>
+#include <amgcl/relaxation/ilu0.hpp>
+#include "vq_access.hpp"
 
 using vq::Q; using vq::Tok; using vq::show;
 namespace be = amgcl::backend;
@@ -40,6 +44,74 @@ template <class V> static std::string do_saad(Tok &t) {
     M C; be::spgemm_saad(*A, *B, C, s); return dump(C);
 }
 
+// plain_aggregates A eps_strong eps2   (eps2 = the exact value of float(eps_strong)^2, checked)
+template <class V> static std::string do_plain_aggregates(Tok &t) {
+    auto A = t.crsT<V>(); Q eps = t.q(); Q eps2 = t.q();
+    amgcl::coarsening::plain_aggregates::params prm; prm.eps_strong = (float)eps;
+    if (!(eps2 == Q(prm.eps_strong * prm.eps_strong))) return "GLUE-MISMATCH eps2";
+    try {
+        amgcl::coarsening::plain_aggregates a(*A, prm);
+        std::ostringstream os;
+        os << "count=" << a.count << " id=" << vq::show_ivec(a.id) << " strong=[";
+        for (size_t k = 0; k < a.strong_connection.size(); ++k) { if (k) os << " "; os << (a.strong_connection[k] ? 1 : 0); }
+        os << "]";
+        return os.str();
+    } catch (const amgcl::error::empty_level&) { return "EXC empty_level"; }
+}
+// tentative n naggr id[]   (nullspace.cols = 0)
+template <class V> static std::string do_tentative(Tok &t) {
+    typedef be::crs<V, ptrdiff_t, ptrdiff_t> M;
+    long n = t.i(); long naggr = t.i(); auto idl = t.ivec();
+    std::vector<ptrdiff_t> id(idl.begin(), idl.end());
+    amgcl::coarsening::nullspace_params ns;
+    auto P = amgcl::coarsening::tentative_prolongation<M>((size_t)n, (size_t)naggr, id, ns, 1);
+    return dump(*P);
+}
+// ilu0 A: the three objects handed to detail::ilu_solve (serial mode keeps them as built)
+template <class V> struct IluT {
+    typedef be::builtin<V, ptrdiff_t, ptrdiff_t> B;
+    typedef amgcl::relaxation::ilu0<B> R;
+    typedef amgcl::relaxation::detail::ilu_solve<B> Solve;
+};
+template <class Tag> struct Stolen { static typename Tag::type ptr; };
+template <class Tag> typename Tag::type Stolen<Tag>::ptr;
+template <class Tag, typename Tag::type p> struct Steal { struct Init { Init() { Stolen<Tag>::ptr = p; } }; static Init init; };
+template <class Tag, typename Tag::type p> typename Steal<Tag, p>::Init Steal<Tag, p>::init;
+struct tag_q { typedef std::shared_ptr<IluT<Q>::Solve> IluT<Q>::R::*type; };
+template struct Steal<tag_q, &IluT<Q>::R::ilu>;
+struct tag_d { typedef std::shared_ptr<IluT<double>::Solve> IluT<double>::R::*type; };
+template struct Steal<tag_d, &IluT<double>::R::ilu>;
+static const IluT<Q>::Solve& solver_of(const IluT<Q>::R &r) { return *(r.*Stolen<tag_q>::ptr); }
+static const IluT<double>::Solve& solver_of(const IluT<double>::R &r) { return *(r.*Stolen<tag_d>::ptr); }
+
+template <class V> static std::string do_ilu0(Tok &t) {
+    auto A = t.crsT<V>();
+    typename IluT<V>::R::params p; p.solve.serial = true;
+    typename IluT<V>::B::params bprm;
+    try {
+        typename IluT<V>::R r(*A, p, bprm);
+        const typename IluT<V>::Solve &s = solver_of(r);
+        auto L = amgcl::verif::access::ilu_L(s); auto U = amgcl::verif::access::ilu_U(s); auto D = amgcl::verif::access::ilu_D(s);
+        if (!L || !U || !D) return "NOFACTORS";
+        std::ostringstream os;
+        os << "L=" << dump(*L) << " U=" << dump(*U) << " D=[";
+        for (size_t i = 0; i < L->nrows; ++i) { if (i) os << " "; os << show((*D)[i]); }
+        os << "]";
+        return os.str();
+    } catch (const std::runtime_error &e) {
+        std::string w = e.what();
+        if (w.find("Zero pivot") != std::string::npos) return "EXC zero_pivot";
+        if (w.find("No diagonal") != std::string::npos) return "EXC no_diag";
+        return "EXC runtime_error";
+    }
+}
+
+VQ_OP(ll_plain_aggregates)  { return do_plain_aggregates<Q>(t); }
+VQ_OP(lld_plain_aggregates) { return do_plain_aggregates<double>(t); }
+VQ_OP(ll_tentative)  { return do_tentative<Q>(t); }
+VQ_OP(lld_tentative) { return do_tentative<double>(t); }
+VQ_OP(ll_ilu0)  { return do_ilu0<Q>(t); }
+VQ_OP(lld_ilu0) { return do_ilu0<double>(t); }
 VQ_OP(ll_sort_rows)  { return do_sort_rows<Q>(t); }
 VQ_OP(lld_sort_rows) { return do_sort_rows<double>(t); }
 VQ_OP(ll_saad)  { return do_saad<Q>(t); }
